@@ -505,8 +505,7 @@ def _edge_blocks(repo, fi):
     return [(b.types, b.a, b.b, b.c, b.node) for b in blocks]
 
 
-def _channels(repo, col):
-    R = "R-C12-channels"
+def _channels(repo, col, R="R-C12-channels"):
     fi = repo.method("Module", "_gather_channels_from_constituents")
     ex = idx.expander(repo, fi)
     apps = [s for s in ex.stores if s.kind == "mcall" and s.key.name == "append"]
@@ -516,8 +515,13 @@ def _channels(repo, col):
         if which == "channels":
             ok = bool(g) and T.find(g[-1].args[0], lambda x: x.op == "attr" and x.name == "_name") is not None and \
                 T.find(g[-1].args[1], lambda x: x.op == "attr" and x.name == "_name") is not None
-            col.check(ok, R, fi, "channels of the constituents are united by name", "if channel._name not in [c._name ...]",
-                      f"guard is {g[-1].short(80) if g else None}", node=s.node)
+            extra = [x for x in s.guards if x.op == "cmp" and x.name == "not in" and
+                     T.find(x.args[0], lambda y: y.op == "attr" and y.name == "_name") is None]
+            col.check(ok and not extra, R, fi, "channels of the constituents are united by name (and by nothing else)",
+                      "if channel._name not in [c._name ...]",
+                      f"a channel of a constituent is registered only if {[x.short(60) for x in s.guards if x.op == 'cmp']}: a second channel that "
+                      f"shares e.g. its current name with a registered one (K and Km, CaL and CaT) is dropped from `channels`, so it is "
+                      f"neither initialised nor listed", node=s.node)
         elif which == "membrane_current_names":
             ok = bool(g) and T.find(g[-1].args[0], lambda x: x.op == "attr" and x.name == "current_name") is not None
             col.check(ok, R, fi, "current names are united", "if channel.current_name not in ...", f"guard is {g[-1].short(80) if g else None}", node=s.node)
